@@ -54,6 +54,22 @@ Fixpoint ready_drive (v : variant) (s : Ready.state) (acts : list act) : list ro
       end
   end.
 
+(* Scripts the driver can perform on ANY implementation: a context that is cancelled belongs to a
+   call made earlier; the initial fetch is let finish at most once, and only after Run was called.
+   (The harness prints only such scripts; C19_ready_model_meets_spec is stated for all of them.) *)
+Definition act_ok (pre : list act) (a : act) : bool :=
+  match a with
+  | ACall _ => true
+  | ACancel i => (i <? length (calls_of pre []))%nat
+  | AFetch _ => run_called pre && match fetch_result pre with None => true | Some _ => false end
+  end.
+
+Fixpoint wf_acts (pre rest : list act) : bool :=
+  match rest with
+  | [] => true
+  | a :: r => act_ok pre a && wf_acts (pre ++ [a]) r
+  end.
+
 Definition robs_eqb (a b : robs) : bool :=
   Bool.eqb (ro_asked a) (ro_asked b) && all2 cst_eqb (ro_cl a) (ro_cl b).
 
@@ -102,7 +118,7 @@ Definition obs_eqb (a b : obs) : bool :=
 
 Definition model_agrees (v : variant) (c : case) : bool :=
   match c with
-  | CReady acts obs => all2 robs_eqb (ready_drive v Ready.init acts) obs
+  | CReady acts obs => wf_acts [] acts && all2 robs_eqb (ready_drive v Ready.init acts) obs
   | CRot t0 usedir script ops obs => all2 obs_eqb (rot_model t0 usedir script ops) obs
   (* readers racing with renewals: the interleaving is not determined by the input, so there is
      no single model run to compare with; what the models guarantee for EVERY interleaving is
